@@ -1026,7 +1026,8 @@ theorem postStep_last (cfg : Cfg) (resolve : St → St × Bool) (url : String) (
       by_cases hok : ok.contains p.status = true
       · simp only [hok, if_true]
         exact hl
-      · simp only [hok, if_false]
+      · have hok' : ok.contains p.status = false := by simpa using hok
+        simp only [hok', Bool.false_eq_true, if_false]
         have hlog := afterReply_log cfg true n { s2 with pool := addNonce s2.pool p.nonce } p
         have hag := afterReply_again cfg true n { s2 with pool := addNonce s2.pool p.nonce } p
         have hshape := afterReply_done cfg true n { s2 with pool := addNonce s2.pool p.nonce } p
@@ -1035,11 +1036,9 @@ theorem postStep_last (cfg : Cfg) (resolve : St → St × Bool) (url : String) (
         simp only at hlog hag hshape ⊢
         cases r3 with
         | done r =>
-          simp only
           rw [hshape r rfl, hlog]
           exact ⟨p, hl, rfl, Or.inl rfl⟩
         | again last =>
-          simp only
           rw [(hag last rfl).2.2, hlog]
           exact ⟨p, hl, rfl, Or.inl rfl⟩
 
@@ -1062,7 +1061,11 @@ theorem result_is_last_reply (cfg : Cfg) (resolve : St → St × Bool) (url : St
       · exact ih (cfg.backoffOK + 1 - (n + 1)) (by omega) (n + 1) s rfl
       · exact h
 
-example : (runCalls ⟨true, 1, 0, fun _ => 0⟩ (initSt [.resp ⟨200, "", some "a"⟩, .resp ⟨400, "urn:x:badNonce", some "b"⟩,
-    .resp ⟨200, "", some "c"⟩, .resp ⟨200, "", some "d"⟩] true) [.revokeAuthz]).2 = [.ok] := by decide
+/-- non-vacuity of the `no_reuse` hypothesis and of `WF` -/
+example : (scriptNonces [.resp ⟨200, "", some "a"⟩, .fail, .resp ⟨400, "urn:x:badNonce", some "b"⟩]).Nodup := by decide
+example : WF [.req ⟨.post, "order", some "a", true⟩, .rep ⟨200, "", some "a"⟩, .req ⟨.get, "dir", none, false⟩] := by
+  simp [WF, issuedOf]
+example : ¬ WF [.req ⟨.post, "order", some "b", true⟩, .rep ⟨200, "", some "a"⟩] := by
+  simp [WF, issuedOf]
 
 end XC.C50
